@@ -377,8 +377,16 @@ def logical_physical_rule(chk, P, rule, min_pairs=2):
             _loc[f.qname] = d
         return _loc[f.qname]
 
+    # the label bookkeeping works on logical addresses: its address parameters are logical inside it
+    label_params = {}
+    for f in P.all_funcs():
+        if f.name in ('LabelHandle', 'LabelModify') and f.unit.name == 'asmlabel.c':
+            label_params[f.qname] = {('p', q['name']) for q in f.params if not q['type'].get('ptr') and abs(q['type'].get('bits') or 0) >= 32}
+
     def dim(f, e):
         d = set()
+        if any(isinstance(x, (list, tuple)) and len(x) == 2 and tuple(x) in label_params.get(f.qname, ()) for x in walk(e)):
+            d.add('L')
         if has_call(e, 'EProgCounter'):
             d.add('L')
         if has_call(e, 'ProgCounter'):
